@@ -127,7 +127,16 @@ impl History {
                     changes.push(Change::D { path: p });
                 } else {
                     let pool: &[&[u8]] = if awkward && rng.chance(1, 2) { AWKWARD } else { PATHS };
-                    let p = rng.pick(pool).to_vec();
+                    let mut p = rng.pick(pool).to_vec();
+                    if !real_repo && rng.chance(1, 25) {
+                        // a very long path (stream level only: no work tree has to hold it): more than 8 KiB as written on the
+                        // change line, plain ASCII or — quoted, four bytes per byte — non-ASCII; under directories the selectors name
+                        p = if rng.chance(1, 2) {
+                            [&b"src/"[..], &[&[b'l'; 200][..], b"/"].concat().repeat(42)[..], b"f"].concat()
+                        } else {
+                            [&b"drop/"[..], &["\u{e9}".repeat(100).as_bytes(), b"/"].concat().repeat(11)[..], b"x"].concat()
+                        };
+                    }
                     // no file/directory conflicts and one change per path per commit
                     if changes.iter().any(|c| matches!(c, Change::M { path, .. } | Change::D { path } if *path == p)) { continue; }
                     let conflict = tree.keys().any(|k| k != &p && (k.starts_with(&[p.as_slice(), b"/"].concat()) || p.starts_with(&[k.as_slice(), b"/"].concat())));
@@ -367,7 +376,9 @@ impl OptSet {
 
     pub fn generate(rng: &mut Rng, h: &History) -> OptSet {
         let mut o = OptSet { prune_empty: 1, prune_degenerate: 1, ..Default::default() };
-        let paths = h.all_paths();
+        // option values derived from paths of the history: the very long paths are left out (validate_options refuses a
+        // selector or rename longer than 4096 bytes; that validation is not part of the model)
+        let paths: Vec<Vec<u8>> = h.all_paths().into_iter().filter(|p| p.len() < 1000).collect();
         let prefix = |rng: &mut Rng| -> Vec<u8> {
             if paths.is_empty() { return b"a".to_vec(); }
             let p = rng.pick(&paths).clone();
